@@ -5,7 +5,7 @@ import IdspModel.Lemmas.Basic
 
 `divi` only ever produces arguments of the form `q·2^15 + 2^14` (or `0`).  `atanRun q n` is an executable check
 that `atani` (checked mode: no intermediate overflow) succeeds on the `n` consecutive quotient fields
-`q, q+1, …, q+n-1`, that every result is in `[0, 609661461]` and that the results are non-decreasing.
+`q, q+1, …, q+n-1`, that every result is in `[0, 536873511]` and that the results are non-decreasing.
 The chunk files `Atan2TabNN.lean` evaluate it in the kernel over consecutive (one point overlapping) ranges;
 `Atan2Table.lean` glues the chunks.
 
@@ -149,9 +149,9 @@ theorem ataniN_ok {x r : Nat} (h : ataniN x = some r) : atani .checked (x : Int)
 
 /-! ## the table check -/
 
-/-- `atani` at the quotient field `81920` (the largest that `divi` produces outside the defect pair `(3,3)`:
-    `(5,5) ↦ 2^16 + 2^14`); it is the largest value of the table and `< 2^30` -/
-def atanMax : Int := 609661461
+/-- `atani` at the quotient field `2^16` (the largest that `divi` produces, thanks to its clamp): `2^29 + 2599`;
+    it is the largest value of the table and `< 2^30` -/
+def atanMax : Int := 536873511
 
 /-- `atani` (checked mode) at the argument that `divi` forms from the quotient field `q` -/
 def atanQ (q : Nat) : R Int := atani .checked ((q : Int) * 2 ^ 15 + 2 ^ 14)
@@ -203,13 +203,13 @@ theorem runTab_spec (f : Nat → Option Nat) (B : Nat) : ∀ (n : Nat) (prev : N
     · cases h
 
 /-- executable table check for `atani`, see the module doc -/
-def atanRun (q n : Nat) : Bool := runTab atanQN 609661461 0 q n
+def atanRun (q n : Nat) : Bool := runTab atanQN 536873511 0 q n
 
 theorem atanRun_spec {q n : Nat} (h : atanRun q n = true) :
-    ∀ i, i < n → ∃ r : Nat, atanQ (q + i) = .ok (r : Int) ∧ r ≤ 609661461 ∧
+    ∀ i, i < n → ∃ r : Nat, atanQ (q + i) = .ok (r : Int) ∧ r ≤ 536873511 ∧
       (i + 1 < n → ∃ r' : Nat, atanQ (q + i + 1) = .ok (r' : Int) ∧ r ≤ r') := by
   intro i hi
-  obtain ⟨r, hr, _, h1, h2⟩ := runTab_spec atanQN 609661461 n 0 q h i hi
+  obtain ⟨r, hr, _, h1, h2⟩ := runTab_spec atanQN 536873511 n 0 q h i hi
   refine ⟨r, atanQN_some hr, h1, fun hn => ?_⟩
   obtain ⟨r', hr', hle⟩ := h2 hn
   exact ⟨r', atanQN_some hr', hle⟩
